@@ -50,6 +50,10 @@ class D(Driver):
                     local_before = world.tree(0).get(op[1])
                     ret = world.cs.smart_unsync_path(ROOTS[0] + "/" + op[1], LOCAL)
                     world.requested.discard(op[1])
+                    for s_, o_, k_ in world.user_log:       # the same object under the name it had before / after a local rename
+                        if s_ == 0 and k_ and o_[0] == "rename" and op[1] in (o_[1], o_[2]):
+                            world.requested.discard(o_[1])
+                            world.requested.discard(o_[2])
                     world.unreq.append((op[1], local_before, remote_before))
                     if ret:
                         world.unwanted.add(op[1])       # it was wanted (requested or predicate-marked) and is not any more
@@ -120,7 +124,13 @@ class D(Driver):
             if rel not in tr or (v is not None and tr[rel] != v):
                 vs.append(viol("local-not-uploaded", rel, obs))
         # requested files are present and byte-equal
-        for rel in w.requested:
+        # (a request is attached to the object, not to the name: it follows a local rename of the downloaded copy)
+        req = set(w.requested)
+        for side, op, ok in w.user_log:
+            if side == 0 and ok and op[0] == "rename" and op[1] in req:
+                req.discard(op[1])
+                req.add(op[2])
+        for rel in sorted(req):
             if rel in tr and tr[rel] is not None:
                 if tl.get(rel) != tr[rel]:
                     vs.append(viol("requested-not-in-sync", rel, obs))
